@@ -293,7 +293,11 @@ def to_expr(n):
             if a.get("kind") not in ("InitListExpr", "CXXConstructExpr"):
                 size = to_expr(a)
                 break
-        return ("new", n.get("type", {}).get("qualType"), size, n.get("isArray", False))
+        init = None
+        for a in inner:
+            if a.get("kind") == "InitListExpr":
+                init = to_expr(a)
+        return ("new", n.get("type", {}).get("qualType"), size, n.get("isArray", False), init)
     if k == "CXXDeleteExpr":
         return ("delete", to_expr(inner[0]) if inner else None, n.get("isArrayAsWritten", n.get("isArray", False)))
     if k == "UnaryExprOrTypeTraitExpr":
